@@ -99,7 +99,7 @@ static int timed_out;
 /* wait until the timer thread is at rest; 0 = ok, -1 = did not come to rest within the real-time limit */
 static int settle(void) {
     struct timespec lim, rt; int ok = 0;
-    real_deadline(&lim, 8000);
+    real_deadline(&lim, 3000);
     pthread_mutex_lock(&hm);
     for (;;) {
         if (t_waiting && !wake_pending && !(t_timed && ts_le(&t_deadline, &vnow))) { ok = 1; break; }
